@@ -225,11 +225,21 @@ func (u *Universe) Solve(o *Obligation, dir string, timeoutS int, thorough bool)
 	for k := 0; k < 2; k++ {
 		a := <-c1
 		res.All[a.name] = a.st
-		if (a.st == "unsat" || (a.st == "sat" && a.name == "z3-new")) && !thorough {
+		if a.st == "unsat" || (a.st == "sat" && a.name == "z3-new") {
 			cancel1()
 			res.Status, res.Backend, res.Ms, res.Output = a.st, a.name, a.ms, a.out
 			if a.st == "sat" {
 				res.Model = a.out
+			}
+			if thorough {
+				// cross-check the verdict on an independent back end (z3 4.8.12); only a contradicting verdict counts
+				cs, _, cms := runSolver(ctx, solvers[2], fz, 10)
+				res.All["z3(cross-check)"] = cs
+				res.Ms += cms
+				if (cs == "unsat" || cs == "sat") && cs != a.st {
+					res.Status = "error"
+					res.Output = fmt.Sprintf("solver disagreement: %s=%s z3=%s", a.name, a.st, cs)
+				}
 			}
 			return res
 		}
@@ -329,6 +339,9 @@ func (u *Universe) Solve(o *Obligation, dir string, timeoutS int, thorough bool)
 				best = a
 				if !thorough {
 					cancel()
+				} else {
+					// thorough: leave the other back ends a few more seconds to contradict, then stop them
+					time.AfterFunc(5*time.Second, cancel)
 				}
 			} else if best.st != a.st {
 				res.Status = "error"
